@@ -97,6 +97,21 @@ def corr(ctx):
     for _ in range(ctx.pick(30, 160)):
         s = synth.gen_scenario(rng, n_codemods=rng.randint(2, 4))
         s["dry"] = rng.random() < 0.15
+        if s["stores"] and rng.random() < 0.5:
+            # dependency-heavy batches: most codemods need a package, some of them already declared (in the manifest
+            # from the start, or by an earlier codemod of the batch), and every codemod has something to rewrite
+            present = sorted({ln.split('"')[1].split("_")[0] for p, t in s["world"] if p.endswith(".py") for ln in t.splitlines() if '"' in ln})
+            st = s["stores"][0]
+            txt = rng.choice(["dep-one\n", "dep-two\nrequests\n", "requests\n", "dep-one\ndep-two\n", "# none\n"])
+            s["world"] = [[p, (txt if p == st["path"] else t)] for p, t in s["world"]]
+            st["declared"] = [ln.strip() for ln in txt.splitlines() if ln.strip() and not ln.strip().startswith("#")]
+            for c in s["codemods"]:
+                if rng.random() < 0.8:
+                    c["deps"] = [rng.choice(["dep-one", "dep-two", "dep-three"])]
+                if present and c["det"] != "sast":
+                    c["from"] = rng.choice(present)
+                    if c["det"] == "semgrep": c["token"] = c["from"]
+                    if c["to"] == c["from"]: c["to"] = "omega"
         scns.append(s)
     jobs = [(s, False) for s in scns]
     if ctx.thorough:
@@ -131,7 +146,7 @@ def corr(ctx):
             sem = [c["id"] for c in s["codemods"] if c["det"] == "semgrep"]
             manifest_only = bool(wd) and all(p in [st["path"] for st in s["stores"]] for p in wd) or (not wd and rd and s["dry"])
             cause = "dependency-store" if (manifest_only or (s["dry"] and any(c["deps"] for c in s["codemods"]))) and not (wd and not manifest_only) else ("semgrep-prefilter" if sem else "other")
-            ctx.fail({"kind": "batch-vs-seq", "cause": cause}, f"batch run != one-at-a-time run: files {wd}, results differ={rd} (codemods {[c['id'] for c in s['codemods']]})",
+            ctx.fail({"kind": "batch-vs-seq", "cause": cause, "dry": bool(s["dry"])}, f"batch run != one-at-a-time run: files {wd}, results differ={rd} (codemods {[c['id'] for c in s['codemods']]})",
                      {"scenario": s, "batch": r["batch"]["results"], "seq": r["seq"]["results"]})
 
 
@@ -157,7 +172,8 @@ def pair_case(case):
                 files[f"m{i}.py"] = rng.choice(pool)
         both = rng.choice(seeds.get(a) or [""]) + "\n" + rng.choice(seeds.get(b) or [""])
         try:
-            compile(both, "x", "exec"); files["both.py"] = both
+            compile(both, "x", "exec")
+            if not case.get("disjoint"): files["both.py"] = both
         except SyntaxError:
             pass
         if case.get("manifest"):
@@ -191,6 +207,13 @@ def search(ctx):
     # the recorded prefilter finding (F-C09-a): replayed on every run
     cases.append({"pair": ("pixee:python/add-requests-timeouts", "pixee:python/url-sandbox"), "seed": 1,
                   "extra_files": {"known.py": 'import requests\nrequests.get("https://example.com").json()\n'}})
+    # a manifest that is also a scanned source file: the first codemod's dependency lands in setup.py (shifting its
+    # lines), the second codemod has a finding further down in that same file
+    SETUP = ('from setuptools import setup\nimport random\nimport subprocess\n\nsetup(\n    name="x",\n    version="0.1",\n    install_requires=[\n        "requests",\n    ],\n)\n\n'
+             'token = random.random()\n\n\ndef build(cmd):\n    return subprocess.run(cmd, shell=False)\n')
+    for k, (first, second) in enumerate([("pixee:python/use-defusedxml", "pixee:python/secure-random"), ("pixee:python/use-defusedxml", "pixee:python/sandbox-process-creation"),
+                          ("pixee:python/harden-pickle-load", "pixee:python/secure-random")][: ctx.pick(2, 3)]):
+        cases.append({"pair": (first, second), "seed": rng.randint(0, 10**9), "extra_files": {"setup.py": SETUP}, "tag": "setup-py-manifest", "disjoint": k == 0 or rng.random() < 0.5})
     from codemodder.codemods.semgrep import SemgrepRuleDetector
     from codemodder.registry import load_registered_codemods
     sg = {c.id for c in load_registered_codemods().codemods if isinstance(c.detector, SemgrepRuleDetector)}
